@@ -15,6 +15,13 @@ def _core(out, tier, seed, prop, quick_mc, thorough_mc, quick_rand, thorough_ran
             jobs["doc-%s-v%d" % (cat, vl)] = core.doc_jobs(cat, max(20, nr // 5), max(3, depth // 2), seed + 2 + vl,
                                                          vlevel=vl, kind="docv%d" % vl)
     core.run_pipeline(out, jobs, mc, prop)
+    if prop in ("C02", "C05"):
+        # second layer: the object-graph mechanism (placeholders, substitution, cascade one step at a
+        # time) refines the document specification and keeps the graph closed and symmetric
+        ok, st, inv = core.mc_impl(5 if tier == "quick" else 7, True, "impl-" + prop)
+        if not ok:
+            raise core.MachineryError("GfaImpl does not refine Gfa: invariant %s" % inv)
+        out.add_cov(states=st[1], transitions=st[0], impl_layer_states=st[1])
     out.assumptions += [
         "TLC 1.8 and the TLA+ semantics of spec/Gfa.tla, TraceGfa.tla",
         "harness/project.py: syntactic abstraction of written lines and of object references",
